@@ -211,7 +211,7 @@ SPECS["C02"] = {
     "bounded": [("contracts.decoders", "bounded:roland_fat_decode"), ("contracts.e2e", "e2e:C02")],
     "trusted_base": ["pyvc VC generator", "z3 5.1.0 / cvc5 1.0.3", "independent Roland writer"],
     "not_covered": ["get_file / _get_*_params / to_generalized / SampleFileListAdapter as contracts"],
-    "assumptions": ["F13 (known finding): sample reachable through two patches of one performance"],
+    "assumptions": [],
 }
 
 _NAMES_NOTE = "naming functions are regex-driven; their symbolic (string-theory) contracts are not built yet - see DESIGN.md"
@@ -224,7 +224,7 @@ SPECS["C05"] = {
     "bounded": [("contracts.e2e_names", "e2e:names"), ("contracts.e2e", "e2e:C02")],
     "trusted_base": ["independent writers under /verif/bounded"],
     "not_covered": ["combine_stereo_routine / combine_stereo as symbolic contracts"],
-    "assumptions": ["F13 (known finding) for Roland performances"],
+    "assumptions": [],
 }
 SPECS["C06"] = {
     "level": "other",
@@ -467,3 +467,21 @@ SPECS["C05"]["contracts"] += ["smpl_extract.generalized.sample:combine_stereo"]
 SPECS["C05"]["level_text"] += (". Added: the real combine_stereo (dataclass field copy modelled: dataclasses.fields / copy.copy) returns a NEW sample whose stream 0 is the left sample's "
                                "and stream 1 the right one's, with two channels, under the given name, leaving both inputs as they were - whatever their rates and lengths")
 SPECS["C05"]["not_covered"] = ["directories of more than 3 samples as a contract"]
+for _pid in ("C02", "C20"):
+    SPECS[_pid]["contracts"].append("smpl_extract.roland.s7xx.sample_entry:SampleEntryAdapter._decode_element")
+SPECS["C02"]["level_text"] += (". Added: SampleEntryAdapter._decode_element reads the chain of the directory record's first cluster after skipping exactly the parameter record's "
+                               "leading-cluster count, and carries mode, frequency, loop mode and the five loop points on as stored")
+_SAFEL = [f"smpl_extract.util.constructs:SafeListConstruct._parse[count={n}]" for n in (1, 2, 3)]
+SPECS["C14"]["contracts"] += _SAFEL
+SPECS["C13"]["contracts"] += _SAFEL
+SPECS["C14"]["level_text"] += (". Added (Roland half): SafeListConstruct._parse - the list every Roland directory level is read with - keeps exactly the elements whose parse "
+                               "does not fail, each in its place, whatever the other elements are (proved for lists of 1, 2, 3 elements over an abstract element parser that fails on "
+                               "an arbitrary subset with any of the four handled exception classes)")
+_EXPORT = [f"smpl_extract.structural:ExportManager.export_samples[n={n}]" for n in (1, 2)]
+SPECS["C06"]["contracts"] += _EXPORT
+SPECS["C06"]["level_text"] += (". Added: ExportManager.export_samples writes every sample of a level to <destination> joined with its export path + '.wav' - the export names are used as they "
+                               "are, nothing re-suffixed or merged after the names were made unique (n = 1, 2 samples; file-system calls abstract)")
+_C16X = ["smpl_extract.structural:Traversable.children[realised]", "smpl_extract.structural:Traversable.children[first-use]", "smpl_extract.structural:Traversable.set_routines"]
+SPECS["C16"]["contracts"] += _C16X
+SPECS["C16"]["level_text"] = ("proved: a realised directory level is returned as it is (same list object, nothing written, the realiser not called again) and set_routines replaces only the "
+                              "routine table - so what `ls` / export see at a level cannot depend on earlier requests; " + SPECS["C16"]["level_text"][len("proved: "):])
